@@ -107,6 +107,13 @@ impl Send {
             return Err(UserError::PeerDisabledServerPush);
         }
 
+        // A PUSH_PROMISE can only be sent while the associated stream can
+        // still send: not after END_STREAM, a reset or the end of the
+        // connection (the promised stream could never make progress).
+        if stream.state.is_send_closed() {
+            return Err(UserError::UnexpectedFrameType);
+        }
+
         tracing::trace!(
             "send_push_promise; frame={:?}; init_window={:?}",
             frame,
